@@ -26,14 +26,14 @@ Proof.
   eapply c12_quote_cont_length. exact Hq.
 Qed.
 
-Lemma c12_ini_loop_total : forall fuel lines pt prefix seen ow ub,
+Lemma c12_ini_loop_total : forall qhash fuel lines pt prefix seen ow ub,
   length lines < fuel ->
-  c12_ir_status (c12_ini_loop fuel lines pt prefix seen ow ub) <> C12OutOfFuel.
+  c12_ir_status (c12_ini_loop qhash fuel lines pt prefix seen ow ub) <> C12OutOfFuel.
 Proof.
-  induction fuel as [|fuel IH]; intros lines pt prefix seen ow ub Hlen; [lia|].
+  intros qhash. induction fuel as [|fuel IH]; intros lines pt prefix seen ow ub Hlen; [lia|].
   cbn [c12_ini_loop]. destruct lines as [|line0 rest]; [cbn; discriminate|].
   cbn in Hlen. assert (Hrest : length rest < fuel) by lia.
-  destruct (c12_classify line0) as [|p|k value0]; try (apply IH; exact Hrest).
+  destruct (c12_classify qhash line0) as [|p|k value0]; try (apply IH; exact Hrest).
   destruct (c12_value value0 rest ub) as [[v r] u] eqn:Hv.
   apply c12_value_length in Hv.
   unfold c12_store.
@@ -47,7 +47,7 @@ Qed.
 
 (* "no hang": on every byte string, with every pre-existing tree and both overwrite modes, the line
    machine stops with a verdict within the fuel the driver gives it (number of lines + 1) *)
-Lemma c12_total : forall doc pt ow, c12_ir_status (c12_parse_ini doc pt ow) <> C12OutOfFuel.
+Lemma c12_total : forall qhash doc pt ow, c12_ir_status (c12_parse_ini qhash doc pt ow) <> C12OutOfFuel.
 Proof.
   intros. unfold c12_parse_ini, c12_parse_ini_lines. apply c12_ini_loop_total. lia.
 Qed.
@@ -55,5 +55,19 @@ Qed.
 (* F-C12-2: the claim that the loop test never dereferences rbegin() of an empty string is false of the code:
    the document consisting of k, =, and one double quote reaches the loop test with an empty value *)
 Lemma c12_undefined_read_reachable :
-  exists doc, c12_ir_ub (c12_parse_ini doc c12_empty true) = true.
-Proof. exists ["k"; "="; """"]%char. vm_compute. reflexivity. Qed.
+  forall qhash, exists doc, c12_ir_ub (c12_parse_ini qhash doc c12_empty true) = true.
+Proof. intros qhash. exists ["k"; "="; """"]%char. destruct qhash; vm_compute; reflexivity. Qed.
+
+(* F-C12-3: a '#' inside a quoted value.  Document:  x="a#b"  /  y=1  *)
+Definition c12_hash_doc : c12_str :=
+  ["x"; "="; """"; "a"; "#"; "b"; """"; "010"; "y"; "="; "1"; "010"]%char.
+(* the code as found: x is not the written value and the following assignment is swallowed *)
+Lemma c12_hash_in_quoted_asfound :
+  let t := c12_ir_tree (c12_parse_ini false c12_hash_doc c12_empty true) in
+  c12_lookup t [["x"%char]] <> Some ["a"; "#"; "b"]%char /\ c12_lookup t [["y"%char]] = None.
+Proof. vm_compute. split; [discriminate|reflexivity]. Qed.
+(* with fixes/C12-3.patch *)
+Lemma c12_hash_in_quoted_repaired :
+  let t := c12_ir_tree (c12_parse_ini true c12_hash_doc c12_empty true) in
+  c12_lookup t [["x"%char]] = Some ["a"; "#"; "b"]%char /\ c12_lookup t [["y"%char]] = Some ["1"%char].
+Proof. vm_compute. split; reflexivity. Qed.
